@@ -8,7 +8,8 @@ FIX = {"FixWake": True, "FixAttach": True, "FixCount": True, "FixJoin": True}
 PKTS = {"SKN": ["sps", "key", "non"], "KN": ["key", "non"], "K": ["key"], "SPKNK": ["sps", "pps", "key", "non", "key"],
         "KAN": ["key", "aud", "non"], "KNKN": ["key", "non", "key", "non"], "KNNKNNK": ["key", "non", "non", "key", "non", "non", "key"],
         "VSPKN": ["vps", "sps", "pps", "key", "non"], "K4": ["key", "non", "non"] * 4 + ["key"], "MVAKN": ["meta", "vsh", "ash", "key", "non"],
-        "MVKAK": ["meta", "vsh", "key", "aud", "key"], "VKNA": ["vsh", "key", "non", "aud"], "VKK": ["vsh", "key", "key"]}
+        "MVKAK": ["meta", "vsh", "key", "aud", "key"], "VKNA": ["vsh", "key", "non", "aud"], "VKK": ["vsh", "key", "key"],
+        "KNSPN": ["key", "non", "sps", "pps", "non"]}
 
 def S(name, cons, pkts, cachegop=True, maxq=1000, stoppers=(), closer=False, panics=(), media="h264", closepanics=False, replace=False, simonly=False):
     return {"name": name, "media": media, "closepanics": closepanics, "replace": replace, "simonly": simonly, "cons": list(cons), "pkts_name": pkts, "pkts": PKTS[pkts], "cachegop": cachegop, "maxq": maxq,
@@ -39,6 +40,7 @@ SCENARIOS = {s["name"]: s for s in [
     S("backlogjoin1", ["c1"], "K4", maxq=1, simonly=True),
     S("panicclose2", ["c1", "c2"], "KN", panics=["c1"], closepanics=True),
     S("replace2", ["c1", "c2"], "K", closer=True, replace=True),
+    S("gopsps1", ["c1"], "KNSPN"),   # parameter sets repeated in-band in the middle of a GOP (seed C02-6)
 ]}
 
 def tla_set(xs):
